@@ -916,7 +916,7 @@ Section IdentityUpdates.
   Proof.
     induction ins as [|x ins IH]; intros st pre i o Hin; cbn [run] in Hin; [destruct Hin|].
     destruct (step validate6 st x) as [st1 o1] eqn:Es. destruct Hin as [Hin|Hin]; [|eapply IH; eauto].
-    inversion Hin; subst; clear Hin. destruct i as [ua m| |]; cbn [step] in Es; [|inversion Es; exact I..].
+    inversion Hin; subst; clear Hin. destruct i as [ua m| | |]; cbn [step] in Es; [|inversion Es; exact I..].
     destruct (rfc6492 validate6 pre ua m) as [s2 out] eqn:Er. inversion Es; subst.
     split.
     - intros Hne. destruct (acts_only_6492 _ sound6 _ _ _ _ _ Er Hne) as [ch (A & B & C & _)]. eauto.
@@ -1366,3 +1366,327 @@ Example ta_local_nonvacuous :
   ta_local6492 f12a_ta (mkCaller 2 20 2) (RIssue ta_rcn 7 None true)
     = (mkTa [(2, mkTaChild 20 255 [] [(7, true)] [] (Some (0, true)))] 5, Some true).
 Proof. repeat split; vm_compute; reflexivity. Qed.
+
+(** * Child updates in every shape ([ca_child_update]: ID certificate, resources, or both in one request) *)
+
+Lemma set_child_id_frame c k st :
+  p_id (set_child_id c k st) = p_id st /\ p_handle (set_child_id c k st) = p_handle st /\
+  p_classes (set_child_id c k st) = p_classes st /\
+  forall c', c' <> c -> aget c' (p_children (set_child_id c k st)) = aget c' (p_children st).
+Proof.
+  unfold set_child_id. destruct (aget c (p_children st)) as [ch|]; [|cbn; auto].
+  destruct (ch_id ch =? k); [auto|]. cbn [bump with_children p_id p_handle p_classes p_children].
+  repeat split. intros c' Hne. rewrite aget_aupd. destruct (c' =? c) eqn:E; [apply N.eqb_eq in E; congruence|reflexivity].
+Qed.
+
+Lemma set_child_id_key c k st ch :
+  aget c (p_children st) = Some ch ->
+  exists ch', aget c (p_children (set_child_id c k st)) = Some ch' /\ ch_id ch' = k /\ ch_susp ch' = ch_susp ch.
+Proof.
+  intros Hc. unfold set_child_id. rewrite Hc. destruct (ch_id ch =? k) eqn:E.
+  - apply N.eqb_eq in E. eauto.
+  - cbn [bump with_children p_children]. rewrite aget_aupd, N.eqb_refl, Hc. cbn. eauto.
+Qed.
+
+Definition id_susp (ch : child) : key * bool := (ch_id ch, ch_susp ch).
+
+(** A resource update touches nothing but the entitlement of the child it names. *)
+Lemma set_child_res_frame c r st :
+  p_id (fst (set_child_res c r st)) = p_id st /\ p_handle (fst (set_child_res c r st)) = p_handle st /\
+  p_classes (fst (set_child_res c r st)) = p_classes st /\
+  (forall c', c' <> c -> aget c' (p_children (fst (set_child_res c r st))) = aget c' (p_children st)) /\
+  (forall c', option_map id_susp (aget c' (p_children (fst (set_child_res c r st)))) = option_map id_susp (aget c' (p_children st))).
+Proof.
+  unfold set_child_res. destruct (r =? 0); [cbn; auto 6|].
+  destruct (negb (subset r (all_res st))); [cbn; auto 6|].
+  destruct (aget c (p_children st)) as [ch|] eqn:Ec; [|cbn; auto 6].
+  destruct (ch_ent ch =? r); [cbn; auto 6|].
+  cbn [fst bump with_children p_id p_handle p_classes p_children]. repeat split.
+  - intros c' Hne. rewrite aget_aupd. destruct (c' =? c) eqn:E; [apply N.eqb_eq in E; congruence|reflexivity].
+  - intros c'. rewrite aget_aupd. destruct (c' =? c) eqn:E; [|reflexivity].
+    destruct (aget c' (p_children st)); reflexivity.
+Qed.
+
+Lemma child_update_fst c u st :
+  fst (child_update c u st) =
+  let st1 := match u_id u with Some k => set_child_id c k st | None => st end in
+  match u_id u, u_res u with
+  | Some _, Some r => if amem c (p_children st) then fst (set_child_res c r st1) else st1
+  | None, Some r => fst (set_child_res c r st1)
+  | _, None => st1
+  end.
+Proof.
+  unfold child_update. destruct (u_id u), (u_res u); cbn [fst]; try reflexivity.
+  - destruct (amem c (p_children st)); reflexivity.
+  - destruct (amem c (p_children st)); reflexivity.
+Qed.
+
+(** After an update that carries an ID certificate for an existing child, the registered key IS the new key -
+    whatever else the update carries (nothing, resources that are accepted, resources that are refused). *)
+Theorem update_with_id_replaces_key c u st k ch :
+  aget c (p_children st) = Some ch -> u_id u = Some k ->
+  exists ch', aget c (p_children (fst (child_update c u st))) = Some ch' /\ ch_id ch' = k /\ ch_susp ch' = ch_susp ch.
+Proof.
+  intros Hc Hu. rewrite child_update_fst, Hu. cbn zeta.
+  destruct (set_child_id_key c k st ch Hc) as [ch1 (H1 & H2 & H3)].
+  destruct (u_res u) as [r|]; [|eauto].
+  unfold amem. rewrite Hc.
+  destruct (set_child_res_frame c r (set_child_id c k st)) as (_ & _ & _ & _ & F).
+  specialize (F c). rewrite H1 in F. cbn [option_map] in F.
+  destruct (aget c (p_children (fst (set_child_res c r (set_child_id c k st))))) as [ch2|]; [|discriminate].
+  unfold id_susp in F. cbn in F. inversion F. exists ch2. repeat split; congruence.
+Qed.
+
+(** An update without an ID certificate leaves every registered key alone. *)
+Theorem update_without_id_keeps_keys c u st c' :
+  u_id u = None ->
+  option_map ch_id (aget c' (p_children (fst (child_update c u st)))) = option_map ch_id (aget c' (p_children st)).
+Proof.
+  intros Hu. rewrite child_update_fst, Hu. cbn zeta. destruct (u_res u) as [r|]; [|reflexivity].
+  destruct (set_child_res_frame c r st) as (_ & _ & _ & _ & F). specialize (F c').
+  destruct (aget c' (p_children (fst (set_child_res c r st)))), (aget c' (p_children st)); unfold id_susp in F; cbn in *;
+    inversion F; congruence.
+Qed.
+
+(** No update touches another child, the parent's identity, or any certificate. *)
+Theorem update_frame c u st :
+  p_id (fst (child_update c u st)) = p_id st /\ p_handle (fst (child_update c u st)) = p_handle st /\
+  p_classes (fst (child_update c u st)) = p_classes st /\
+  forall c', c' <> c -> aget c' (p_children (fst (child_update c u st))) = aget c' (p_children st).
+Proof.
+  rewrite child_update_fst. cbn zeta.
+  assert (A : forall st1, (p_id st1 = p_id st /\ p_handle st1 = p_handle st /\ p_classes st1 = p_classes st /\
+                           forall c', c' <> c -> aget c' (p_children st1) = aget c' (p_children st)) ->
+              forall r, (p_id (fst (set_child_res c r st1)) = p_id st /\ p_handle (fst (set_child_res c r st1)) = p_handle st /\
+                         p_classes (fst (set_child_res c r st1)) = p_classes st /\
+                         forall c', c' <> c -> aget c' (p_children (fst (set_child_res c r st1))) = aget c' (p_children st))).
+  { intros st1 (A1 & A2 & A3 & A4) r. destruct (set_child_res_frame c r st1) as (B1 & B2 & B3 & B4 & _).
+    repeat split; try congruence. intros c' Hne. rewrite B4, A4; auto. }
+  destruct (u_id u) as [k|], (u_res u) as [r|].
+  - destruct (amem c (p_children st)); [apply A|]; apply set_child_id_frame.
+  - apply set_child_id_frame.
+  - apply A. auto.
+  - auto.
+Qed.
+
+(** A successful update that carries resources leaves exactly those as the child's entitlement. *)
+Theorem update_sets_entitlement c u st st' r :
+  child_update c u st = (st', true) -> u_res u = Some r ->
+  exists ch', aget c (p_children st') = Some ch' /\ ch_ent ch' = r.
+Proof.
+  unfold child_update. intros H Hr. rewrite Hr in H.
+  set (st1 := match u_id u with Some k => set_child_id c k st | None => st end) in *.
+  destruct (match u_id u with Some _ => amem c (p_children st) | None => true end); [|inversion H].
+  unfold set_child_res in H. destruct (r =? 0); [inversion H|].
+  destruct (negb (subset r (all_res st1))); [inversion H|].
+  destruct (aget c (p_children st1)) as [ch|] eqn:Ec; [|inversion H].
+  destruct (ch_ent ch =? r) eqn:E; inversion H; subst; clear H.
+  - apply N.eqb_eq in E. eauto.
+  - cbn [bump with_children p_children]. rewrite aget_aupd, N.eqb_refl, Ec. cbn. eauto.
+Qed.
+
+Section UpdateThenRequest.
+  Variable validate6 : validator req.
+  Hypothesis sound6 : cms_sound validate6.
+
+  (** After an update of any shape that carries a new ID certificate, a request signed with the replaced key is
+      refused and changes nothing ... *)
+  Theorem replaced_key_refused_after_update st c ch u knew ua m :
+    aget c (p_children st) = Some ch -> u_id u = Some knew -> knew <> ch_id ch ->
+    sender m = c -> signed_by m = ch_id ch ->
+    rfc6492 validate6 (fst (child_update c u st)) ua m = (fst (child_update c u st), Refused).
+  Proof.
+    intros Hc Hu Hne Hs Hk. apply (wrong_key_or_content_refused_6492 _ sound6).
+    intros ch'. rewrite Hs. destruct (update_with_id_replaces_key c u st knew ch Hc Hu) as [ch1 (H1 & H2 & _)].
+    rewrite H1. intros H; inversion H; subst. left. congruence.
+  Qed.
+
+  (** ... and a request signed with the new key is validated and processed. *)
+  Theorem new_key_served_after_update st c ch u knew ua m :
+    aget c (p_children st) = Some ch -> u_id u = Some knew ->
+    sender m = c -> signed_by m = knew -> intact m = true ->
+    snd (rfc6492 validate6 (fst (child_update c u st)) ua m) <> Refused /\
+    fst (rfc6492 validate6 (fst (child_update c u st)) ua m) = fst (process (fst (child_update c u st)) ua c (payload m)).
+  Proof.
+    intros Hc Hu Hs Hk Hi. destruct (update_with_id_replaces_key c u st knew ch Hc Hu) as [ch1 (H1 & H2 & _)].
+    unfold rfc6492. rewrite Hs, H1.
+    assert (V : validate6 (ch_id ch1) m = true) by (apply sound6; split; congruence). rewrite V.
+    destruct (process (fst (child_update c u st)) ua c (payload m)) as [s1 [| |rep|]]; cbn; split; congruence.
+  Qed.
+
+  (** A list request of a child that is not suspended, signed with the new key, is answered. *)
+  Theorem new_key_list_answered_after_update st c ch u knew ua m :
+    aget c (p_children st) = Some ch -> u_id u = Some knew -> ch_susp ch = false ->
+    sender m = c -> signed_by m = knew -> intact m = true -> payload m = RList ->
+    exists rep st', rfc6492 validate6 (fst (child_update c u st)) ua m = (st', Served c rep).
+  Proof.
+    intros Hc Hu Hsu Hs Hk Hi Hp. destruct (update_with_id_replaces_key c u st knew ch Hc Hu) as [ch1 (H1 & H2 & H3)].
+    unfold rfc6492. rewrite Hs, H1.
+    assert (V : validate6 (ch_id ch1) m = true) by (apply sound6; split; congruence). rewrite V, Hp.
+    unfold process. rewrite H1, H3, Hsu. cbn [handle_req]. eauto.
+  Qed.
+End UpdateThenRequest.
+
+(** Along every history that also contains child updates of every shape, the statement of
+    [acts_only_along_history] holds unchanged (the constructor [InChildUpdate] is covered by that theorem); here
+    the non-vacuity: the three shapes, each followed by the old and the new key. *)
+Example update_shapes_nonvacuous :
+  map (fun x => snd x) (run ideal_validate ex_parent
+       [InChildUpdate 2 (mkUpd (Some 21) None);           InMsg 1 (mkMsg 2 1 RList 20 true); InMsg 2 (mkMsg 2 1 RList 21 true);
+        InChildUpdate 2 (mkUpd None (Some 7));            InMsg 3 (mkMsg 2 1 RList 20 true); InMsg 4 (mkMsg 2 1 RList 21 true);
+        InChildUpdate 2 (mkUpd (Some 22) (Some 3));       InMsg 5 (mkMsg 2 1 RList 21 true); InMsg 6 (mkMsg 2 1 RList 22 true);
+        (* resources the parent does not hold: the request fails, the ID certificate it carried is registered all the same *)
+        InChildUpdate 2 (mkUpd (Some 23) (Some 256));     InMsg 7 (mkMsg 2 1 RList 22 true); InMsg 8 (mkMsg 2 1 RList 23 true)])
+  = [None; Some Refused; Some (Served 2 (mkMsg 1 2 (RepList [(0, 3, [(5, 3)])]) 10 true));
+     None; Some Refused; Some (Served 2 (mkMsg 1 2 (RepList [(0, 7, [(5, 3)])]) 10 true));
+     None; Some Refused; Some (Served 2 (mkMsg 1 2 (RepList [(0, 3, [(5, 3)])]) 10 true));
+     None; Some Refused; Some (Served 2 (mkMsg 1 2 (RepList [(0, 3, [(5, 3)])]) 10 true))].
+Proof. vm_compute. reflexivity. Qed.
+
+Example update_with_id_nonvacuous :
+  child_update 2 (mkUpd (Some 21) (Some 7)) ex_parent
+  = (mkParent 1 10 [(0, mkRC (Some 255) [(5, mkIC 3 None)] [])]
+              [(2, mkChild 21 7 [(5, InUse 0)] false None); (3, mkChild 30 12 [] false None);
+               (4, mkChild 40 48 [] false None)] 9, true) /\
+  snd (child_update 2 (mkUpd (Some 21) (Some 256)) ex_parent) = false /\
+  snd (child_update 9 (mkUpd (Some 21) None) ex_parent) = false.
+Proof. repeat split; vm_compute; reflexivity. Qed.
+
+(** * The jail of a publisher is its own directory *)
+
+Theorem jail_is_own_directory h : h <> ta_name -> jail_of h = [h].
+Proof. intros Hne. unfold jail_of. destruct (h =? ta_name) eqn:E; [apply N.eqb_eq in E; congruence|reflexivity]. Qed.
+
+Theorem jail_of_ta : jail_of ta_name = [].
+Proof. reflexivity. Qed.
+
+Lemma prefix_singleton h u : prefix_b [h] u = true -> exists rest, u = h :: rest.
+Proof.
+  destruct u as [|x u]; cbn [prefix_b]; [discriminate|]. intros H. apply andb_true_iff in H. destruct H as [H _].
+  apply N.eqb_eq in H. subst. eauto.
+Qed.
+
+(** A publisher that is added gets the given key, no objects, and the jail its handle determines. *)
+Theorem create_publisher_jail h k rp rp' :
+  create_publisher h k rp = (rp', true) ->
+  exists pb, aget h (r_pubs rp') = Some pb /\ pb_id pb = k /\ pb_jail pb = jail_of h /\ pb_objs pb = [] /\
+             forall h', h' <> h -> aget h' (r_pubs rp') = aget h' (r_pubs rp).
+Proof.
+  unfold create_publisher. destruct (amem h (r_pubs rp)); [discriminate|].
+  intros H; inversion H; subst; clear H. cbn [r_pubs]. rewrite aget_ainsert, N.eqb_refl.
+  eexists; repeat split. intros h' Hne. rewrite aget_ainsert.
+  destruct (h' =? h) eqn:E; [apply N.eqb_eq in E; congruence|reflexivity].
+Qed.
+
+Lemma jails_wf_create h k rp : jails_wf rp -> jails_wf (fst (create_publisher h k rp)).
+Proof.
+  intros W. unfold create_publisher. destruct (amem h (r_pubs rp)); cbn [fst]; [exact W|].
+  intros h' pb. cbn [r_pubs]. rewrite aget_ainsert. destruct (h' =? h) eqn:E.
+  - apply N.eqb_eq in E. subst. intros H; inversion H; reflexivity.
+  - apply W.
+Qed.
+
+Lemma jails_wf_remove h rp : jails_wf rp -> jails_wf (remove_publisher h rp).
+Proof.
+  intros W h' pb. unfold remove_publisher. cbn [r_pubs]. rewrite aget_aremove.
+  destruct (h' =? h); [discriminate|apply W].
+Qed.
+
+Lemma serve8181_jails rp h q rp' res h' :
+  serve8181 rp h q = Some (rp', res) ->
+  option_map pb_jail (aget h' (r_pubs rp')) = option_map pb_jail (aget h' (r_pubs rp)).
+Proof.
+  unfold serve8181. destruct (aget h (r_pubs rp)) as [pb|] eqn:Epb; [|discriminate].
+  destruct q as [|d|]; try (intros H; inversion H; subst; reflexivity).
+  destruct d as [|e d]; [intros H; inversion H; subst; reflexivity|].
+  destruct (delta_ok (pb_jail pb) (pb_objs pb) (e :: d)); intros H; inversion H; subst; [|reflexivity].
+  cbn [r_pubs]. rewrite aget_aupd. destruct (h' =? h); [|reflexivity].
+  destruct (aget h' (r_pubs rp)); reflexivity.
+Qed.
+
+Lemma jails_wf_rfc8181 validate rp m : jails_wf rp -> jails_wf (fst (rfc8181 validate rp m)).
+Proof.
+  intros W. unfold rfc8181. destruct (aget (sender m) (r_pubs rp)) as [pb|]; [|exact W].
+  destruct (validate (pb_id pb) m); [|exact W].
+  destruct (serve8181 rp (sender m) (payload m)) as [[rp1 res]|] eqn:Es; [|exact W].
+  assert (W1 : jails_wf rp1).
+  { intros h' pb' Hh. pose proof (serve8181_jails _ _ _ _ _ h' Es) as J. rewrite Hh in J. cbn in J.
+    destruct (aget h' (r_pubs rp)) as [pb0|] eqn:E0; [|discriminate]. cbn in J. inversion J.
+    rewrite H0. apply W. exact E0. }
+  destruct res; exact W1.
+Qed.
+
+(** Along every history of publishers being added, removed (an identity change is remove + add) and of messages,
+    starting from a server without publishers: every stored jail is the one its handle determines. *)
+Theorem jails_wf_along_history validate ins : forall rp, jails_wf rp -> jails_wf (rrun validate rp ins).
+Proof.
+  induction ins as [|i ins IH]; intros rp W; [exact W|]. cbn [rrun fold_left]. apply IH.
+  destruct i; cbn [rstep]; [apply jails_wf_rfc8181|apply jails_wf_create|apply jails_wf_remove]; exact W.
+Qed.
+
+Theorem jails_wf_no_publishers k v : jails_wf (mkRepo k [] v).
+Proof. intros h pb H. discriminate H. Qed.
+
+(** An accepted delta names only URIs inside the jail the SENDER'S HANDLE determines ... *)
+Theorem publish_within_own_directory validate rp m rp' h r d :
+  jails_wf rp ->
+  rfc8181 validate rp m = (rp', Served h r) -> payload m = QDelta d -> payload r = PSuccess ->
+  forall e, In e d -> prefix_b (jail_of (sender m)) (elem_uri e) = true.
+Proof.
+  intros W H Hq Hr e Hin.
+  destruct (aget (sender m) (r_pubs rp)) as [pb|] eqn:Epb.
+  - rewrite <- (W _ _ Epb). eapply publish_within_jail; eauto.
+  - unfold rfc8181 in H. rewrite Epb in H. inversion H.
+Qed.
+
+(** ... so for every sender other than exactly "ta": inside the directory named like the sender, whatever the
+    sender's handle starts with. *)
+Theorem publish_only_under_own_handle validate rp m rp' h r d :
+  jails_wf rp -> sender m <> ta_name ->
+  rfc8181 validate rp m = (rp', Served h r) -> payload m = QDelta d -> payload r = PSuccess ->
+  forall e, In e d -> exists rest, elem_uri e = sender m :: rest.
+Proof.
+  intros W Hne H Hq Hr e Hin. apply prefix_singleton.
+  pose proof (publish_within_own_directory validate rp m rp' h r d W H Hq Hr e Hin) as P.
+  rewrite (jail_is_own_directory _ Hne) in P. exact P.
+Qed.
+
+Theorem publish_only_under_own_handle_along_history validate ins k v m rp' h r d :
+  sender m <> ta_name ->
+  rfc8181 validate (rrun validate (mkRepo k [] v) ins) m = (rp', Served h r) -> payload m = QDelta d -> payload r = PSuccess ->
+  forall e, In e d -> exists rest, elem_uri e = sender m :: rest.
+Proof.
+  intros Hne. apply publish_only_under_own_handle; [|exact Hne].
+  apply jails_wf_along_history, jails_wf_no_publishers.
+Qed.
+
+(** Near-miss handles in the shared numbering: 1 = "ta"; 11, 12, 13 stand for "tango", "alice", "alice2". *)
+Example own_directory_nonvacuous :
+  let rp := rrun ideal_validate (mkRepo 50 [] 0) [RInCreate 1 60; RInCreate 11 70; RInCreate 12 80; RInCreate 13 90] in
+  (* in its own directory: accepted *)
+  snd (rfc8181 ideal_validate rp (mkMsg 11 0 (QDelta [EPub [11; 100] 3]) 70 true)) = Served 11 (mkMsg 0 0 PSuccess 50 true) /\
+  (* in a sibling's directory, in the parent directory, alice2 in alice's and alice in alice2's: error reply, nothing changes *)
+  rfc8181 ideal_validate rp (mkMsg 11 0 (QDelta [EPub [12; 100] 3]) 70 true) = (rp, Served 11 (mkMsg 0 0 PError 50 true)) /\
+  rfc8181 ideal_validate rp (mkMsg 11 0 (QDelta [EPub [100] 3]) 70 true) = (rp, Served 11 (mkMsg 0 0 PError 50 true)) /\
+  rfc8181 ideal_validate rp (mkMsg 13 0 (QDelta [EPub [12; 100] 3]) 90 true) = (rp, Served 13 (mkMsg 0 0 PError 50 true)) /\
+  rfc8181 ideal_validate rp (mkMsg 12 0 (QDelta [EPub [13; 100] 3]) 80 true) = (rp, Served 12 (mkMsg 0 0 PError 50 true)) /\
+  (* the trust anchor itself publishes at the base *)
+  snd (rfc8181 ideal_validate rp (mkMsg 1 0 (QDelta [EPub [100] 3]) 60 true)) = Served 1 (mkMsg 0 0 PSuccess 50 true) /\
+  (* remove + add with a new key: same jail, the replaced key is refused *)
+  (let rp2 := rrun ideal_validate rp [RInRemove 11; RInCreate 11 71] in
+   rfc8181 ideal_validate rp2 (mkMsg 11 0 QList 70 true) = (rp2, Refused) /\
+   option_map pb_jail (aget 11 (r_pubs rp2)) = Some [11]).
+Proof. vm_compute. repeat split; reflexivity. Qed.
+
+(** Self-test of the oracles on the two administrative cases (IdentCheck.v). *)
+Example oracle_flags_dropped_id_update :
+  agrees upd_dropped_id_case = false /\ c12_ok upd_dropped_id_case = false /\
+  agrees upd_honest_case = true /\ c12_ok upd_honest_case = true /\ c12_confined upd_honest_case = true /\
+  c12_reply upd_honest_case = true.
+Proof. vm_compute. repeat split; reflexivity. Qed.
+Example oracle_flags_wide_jail :
+  agrees wide_jail_add_case = false /\ c12_confined wide_jail_add_case = false /\
+  (* the model follows the STORED jail, so it explains the acceptance; the oracle, which derives the jail from the handle, does not *)
+  agrees wide_jail_publish_case = true /\ c12_confined wide_jail_publish_case = false /\
+  agrees honest_add_case = true /\ c12_ok honest_add_case = true /\ c12_confined honest_add_case = true.
+Proof. vm_compute. repeat split; reflexivity. Qed.
